@@ -5,7 +5,7 @@ rationals; + one ulp for the final decimal-to-binary rounding)."""
 from fractions import Fraction
 from oracle_util import *
 
-RULE = ("(hardening: exponents next to 1 and 0 at every distance, negative exponents x every precision, rounding carries x every "
+RULE = ("(round 4, duplicates - identity vs equality: term lists of 2..6 terms with a later term equal to the first / to its neighbour / to another later term, all terms equal, p + p, a repeated negative / unit / zero / constant term, parser output of x + y + x; coefficient vectors of 2..8 entries over a two- or three-value alphabet [constant = leading, two highest equal, all equal] through the dense printer and the fitted-model string; each at precision None and 0..17) (hardening: exponents next to 1 and 0 at every distance, negative exponents x every precision, rounding carries x every "
         "precision, lists of 9..257 coefficients / up to 60 terms, subnormal..largest magnitudes, precisions beyond 17, formatter "
         "flags other than the precision [model comparison only], Term with a precision) coefficient vectors of length 0..8 (signs, +-1, 0, integers, dyadics, 1e+-21 scale, rounding-boundary values) and term "
         "lists with 0..4 variables and integer/negative/fractional exponents, through Display of SimplePolynomial / "
